@@ -21,6 +21,8 @@ pub enum Probe {
     UlpAboveTotal,
     Far(bool),
     Fraction(f64),
+    /// the length -0.0: numerically zero, so the front (or seam) station
+    NegZero,
 }
 
 #[derive(Clone, Debug, Serialize, Deserialize)]
@@ -40,7 +42,8 @@ fn probe() -> BoxedStrategy<Probe> {
         1 => Just(Probe::UlpBelowZero),
         1 => Just(Probe::UlpAboveTotal),
         1 => any::<bool>().prop_map(Probe::Far),
-        2 => unif(0.0, 1.0).prop_map(Probe::Fraction),
+        2 => prop_oneof![8 => unif(0.0, 1.0), 1 => Just(-0.0), 1 => Just(0.0), 1 => Just(1.0)].prop_map(Probe::Fraction),
+        1 => Just(Probe::NegZero),
     ]
     .boxed()
 }
@@ -49,7 +52,7 @@ impl Property for C01 {
     type Case = Case;
     const ID: &'static str = "C01";
     fn rule() -> &'static str {
-        "a case is a 2D or 3D polyline (2-64 vertices quick / up to 400 thorough; 7 shapes incl. collinear runs, lattice paths, dense-then-sparse; scale 1e-3..1e3; tol 1e-9/1e-6/1e-4 of scale; open / exactly closed / closed within tol / force-closed; injected exact and sub-tolerance duplicates) plus 4-24 probes constructed from the built curve (exact vertex lengths, one ulp either side, interior fractions, 0, L, one ulp outside, far outside, fractions). Non-trivial: >=3 stored vertices with two different edge lengths, and the probes include an exact vertex hit and an ulp neighbour. Distinct = distinct canonical JSON."
+        "a case is a 2D or 3D polyline (2-64 vertices quick / up to 400 thorough; 7 shapes incl. collinear runs, lattice paths, dense-then-sparse; scale 1e-3..1e3; tol 1e-9/1e-6/1e-4 of scale; open / exactly closed / closed within tol / force-closed; injected exact and sub-tolerance duplicates) plus 4-24 probes constructed from the built curve (exact vertex lengths, one ulp either side, interior fractions, 0, -0.0, L, one ulp outside, far outside, fractions incl. -0.0, 0 and 1). Non-trivial: >=3 stored vertices with two different edge lengths, and the probes include an exact vertex hit and an ulp neighbour. Distinct = distinct canonical JSON."
     }
     fn cases(t: Tier) -> u32 {
         t.pick(1_200_000, 10_000_000)
@@ -107,6 +110,7 @@ fn resolve(p: &Probe, lens: &[f64]) -> (f64, bool, bool) {
         Probe::UlpAboveTotal => (next_up(total), false, true),
         Probe::Far(neg) => (if *neg { -total - 1.0 } else { 2.0 * total + 1.0 }, false, true),
         Probe::Fraction(f) => (f * total, true, false),
+        Probe::NegZero => (-0.0, false, false),
     }
 }
 
